@@ -103,8 +103,10 @@ def run(ctx):
                     adds.append((e, e.data['value']))
             for e, v in adds:
                 n_mut += 1
-                gs = [g for g in I.events if g.kind == 'call' and g.data.get('name') == guard.short and g.data['args']
-                      and g.data['args'][0].key == v.key and dominates(g, e)]
+                gparam = guard.params()[1]
+                gs = [g for g in I.events if g.kind == 'call' and g.data.get('name') == guard.short
+                      and (g.data.get('bound') or {}).get(gparam) is not None
+                      and g.data['bound'][gparam].key == v.key and dominates(g, e)]
                 ctx.ob('GUARDDOM', 'an object is placed into the cadence only after the consistency guard accepted that same object',
                        m, bool(gs), {'addition': e.text(), 'added_value': pretty(v)[:100],
                                      'guard_calls': [g.text() for g in I.events if g.kind == 'call' and g.data.get('name') == guard.short]},
